@@ -10,7 +10,7 @@ import json, os, sys
 
 # operator -> (number of direct slots, binders per child)
 SIG_T = {
-    "f": (2, []), "f3": (3, []), "f4": (4, []), "v": (1, []), "c": (0, []), "d": (0, []),
+    "f": (2, []), "p": (2, []), "f3": (3, []), "f4": (4, []), "v": (1, []), "c": (0, []), "d": (0, []),
     "g": (0, [0]), "h": (0, [0, 0]), "lam": (0, [1]), "let": (0, [1, 0]),
     "k": (0, [0, 1]), "sum": (0, [0, 2]),
 }
@@ -131,7 +131,23 @@ U3 = universe("U3", 4, [
     ("(k (v 1) 1 (f 1 2))", "(k (v 1) 3 (f 3 2))"),   # alpha-equal
 ], note="binder heavy: let, nested lam, sum (Bind Bind), k (child before binder)")
 
-ALL = {"U1": U1, "U2": U2, "U3": U3}
+# U4 "parents": classes that already have usages (parents, grand-parents, binders over them) when
+# they are merged, get a symmetry or lose a slot.  The base terms are inserted up front and are
+# not sides of any equation.
+P12, P21, P13 = "(p 1 2)", "(p 2 1)", "(p 1 3)"
+U4 = universe("U4", 4, [
+    (F12, F21), (P12, P21), (F12, P12), (F12, P21),
+    (P12, V1), (F12, V1),
+    (F12, GF12), ("(g (p 1 2))", P12),
+    (F12, "(g (p 1 2))"),
+    (P12, P13),
+    (V1, C),
+    ("(g (p 1 2))", "(g (f 1 2))"),
+], base=["(g (p 1 2))", "(g (g (p 1 2)))", "(h (p 1 2) (v 1))", "(h (v 2) (p 1 2))", "(lam 1 (p 1 2))", "(g (v 1))",
+         "(h (p 1 2) (p 2 3))", "(h (p 2 1) (v 1))", "(h (p 1 2) (p 2 1))"],
+   note="pre-inserted parents / grand-parents of the classes that get merged")
+
+ALL = {"U1": U1, "U2": U2, "U3": U3, "U4": U4}
 
 if __name__ == "__main__":
     out = os.path.dirname(os.path.abspath(__file__))
